@@ -16,6 +16,10 @@ def plan(tier):
     for q0 in list(qs):
         if q0.name == 'sbox' or q0.name in ('e2e:r5:enc:via0', 'e2e:r8:dec:via0') or (tier == 'thorough' and q0.name.startswith('e2e:')):
             q2 = copy.copy(q0); q2.name = q0.name + ':w32'; q2.cfg = {'64BIT': 0}; q2.desc = q0.desc + ' [32-bit word path, SKINNY_64BIT=0]'; qs.append(q2)
+    if tier == 'thorough':
+        for q0 in list(qs):
+            if q0.name == 'sbox':
+                q2 = copy.copy(q0); q2.name = q0.name + ':builtin-solver'; q2.solver = 'builtin'; q2.desc = q0.desc + ' [decided again by CBMC\'s built-in SAT solver]'; qs.append(q2)
     return dict(queries=qs, level='model_checking', pre=[pre_model_selftest],
                 functions=['mantis_set_key', 'mantis_set_tweak', 'mantis_unpack_block', 'mantis_unpack_rotated_block', 'mantis_ecb_crypt', 'mantis_ecb_crypt_tweaked', 'mantis_sbox', 'mantis_update_tweak(_inverse)', 'mantis_shift_rows(_inverse)', 'mantis_mix_columns'],
                 bounds={'rounds': '5..8, all loops fully unwound', 'inputs': 'every key, tweak and block bit symbolic', 'entry points': 'quick: stored and per-call tweak for r=6,7, all four ways for r=5,8; thorough: all four for every r'},
